@@ -2,6 +2,7 @@ import Nstd.Common.Basic
 import Nstd.Seq.Model
 import Nstd.Seq.PtrModel
 import Nstd.Seq.RawArray
+import Nstd.Generated.SeqConst
 /-
   Line protocol of the Seq area (List / PoolList / Array of int, two variables of each kind).
   One op per line.  Observation line:
@@ -17,6 +18,13 @@ import Nstd.Seq.RawArray
 -/
 open Nstd.Common
 namespace Nstd.Seq
+
+/-- the constants of the CURRENT sources (derived by the translator by executing the headers): the rounding mask of
+    `Array::reserve` and the items per block of List / PoolList -/
+instance : ArrCfg := ⟨Generated.Seq.arrayCapMask⟩
+def lkSrc : Nat := Generated.Seq.listBlockItems
+def pkSrc : Nat := Generated.Seq.poolBlockItems
+def init0 : State := State.init lkSrc pkSrc
 
 def csv {α} (f : α → String) (xs : List α) : String :=
   if xs.isEmpty then "-" else ",".intercalate (xs.map f)
@@ -121,10 +129,10 @@ def parseOp (ws : List String) : Option Op :=
     implementation never prints, so the correspondence fails). -/
 
 structure PtrPair where
-  h0 : Ptr.PList := Ptr.init      -- List variables
-  h1 : Ptr.PList := Ptr.init
-  h2 : Ptr.PList := Ptr.init      -- PoolList variables (PoolList.hpp repeats the relinking code of List.hpp:
-  h3 : Ptr.PList := Ptr.init      --  `append` = allocateFreeItem + linkFreeItem in front of `_end`)
+  h0 : Ptr.PList := Ptr.init lkSrc      -- List variables
+  h1 : Ptr.PList := Ptr.init lkSrc
+  h2 : Ptr.PList := Ptr.init pkSrc      -- PoolList variables (PoolList.hpp repeats the relinking code of List.hpp:
+  h3 : Ptr.PList := Ptr.init pkSrc      --  `append` = allocateFreeItem + linkFreeItem in front of `_end`)
   ok : Bool := true
 
 /-- heaps 0,1 = List variables, 2,3 = PoolList variables -/
@@ -185,7 +193,7 @@ def ptrFree (h : Ptr.PList) : List Nat :=
     | _, none => acc.reverse
     | 0, some _ => (0 :: acc).reverse
     | fuel + 1, some a => go fuel (h.prev a) ((a - 1) :: acc)
-  go (4 * h.nblocks + 1) h.free []
+  go (h.bk * h.nblocks + 1) h.free []
 
 def ptrAgrees (h : Ptr.PList) (s : LState) : Bool :=
   match ptrChain h with
@@ -195,7 +203,7 @@ def ptrAgrees (h : Ptr.PList) (s : LState) : Bool :=
 /-- re-tabulate the heap functions (the update closures would otherwise pile up over a history); addresses
     beyond the allocated blocks are never written and keep the initial contents -/
 def compact (h : Ptr.PList) : Ptr.PList :=
-  let n := 4 * h.nblocks + 1
+  let n := h.bk * h.nblocks + 1
   let tv := (Array.range n).map h.val
   let tp := (Array.range n).map h.prev
   let tn := (Array.range n).map h.next
@@ -208,7 +216,7 @@ def ptrAdvance (pp : PtrPair) (before after : State) (op : Op) : PtrPair :=
     | .lswap v => (pp.set v (pp.get (1 - v))).set (1 - v) (pp.get v)
     | .pswap v => (pp.set (2 + v) (pp.get (2 + (1 - v)))).set (2 + (1 - v)) (pp.get (2 + v))
     | .lcopy v =>
-      match ptrRunOps Ptr.init [.insertList 0 (before.getL (1 - v)).vals] with
+      match ptrRunOps (Ptr.init lkSrc) [.insertList 0 (before.getL (1 - v)).vals] with
       | some h => pp.set v h
       | none => { pp with ok := false }
     | _ =>
@@ -288,7 +296,7 @@ def stepLine (stp : State × PtrPair × RawLock × List (Int × Int) × List (In
     | none => (stp, "bad-op")
   else
   match ws with
-  | ["reset"] => (({}, {}, {}, [], []), line {} none 0 0 allShown)
+  | ["reset"] => ((init0, {}, {}, [], []), line init0 none 0 0 allShown)
   | ["dump"] => (stp, line st none 0 0 allShown ++ (if pp.ok then "" else " ptr-diverges") ++ (if rl.ok then "" else " raw-diverges"))
   | _ =>
     match parseOp ws with
@@ -304,4 +312,4 @@ def stepLine (stp : State × PtrPair × RawLock × List (Int × Int) × List (In
 
 end Nstd.Seq
 
-def main : IO Unit := Nstd.Common.ioLoop (({}, {}, {}, [], []) : Nstd.Seq.State × Nstd.Seq.PtrPair × Nstd.Seq.RawLock × List (Int × Int) × List (Int × Int)) Nstd.Seq.stepLine
+def main : IO Unit := Nstd.Common.ioLoop ((Nstd.Seq.init0, {}, {}, [], []) : Nstd.Seq.State × Nstd.Seq.PtrPair × Nstd.Seq.RawLock × List (Int × Int) × List (Int × Int)) Nstd.Seq.stepLine
